@@ -289,6 +289,25 @@ def _check_extensions(self):
                 if "was not found" not in out:
                     self.fail("bad-path-accepted", {"path": p, "observed": out[:200]})
                     return n
+    # a good path with ONE separator doubled by a different or equal character (an empty component): '//', '/\', '\/'
+    # -- the doubled backslash is the only two-character separator
+    for tokens, base in self.nodes:
+        if len(tokens) < 1:
+            continue
+        for k in range(1, len(tokens) + 1):
+            for dbl in ("//", "/\\", "\\/"):
+                head, tail = "/".join(tokens[:k]), "/".join(tokens[k:])
+                p = head + dbl + tail
+                if self.blankish(p) or self.blankish(head + "//" + tail):
+                    continue
+                st, out = self.ls(p)
+                n += 1
+                if st != "ok":
+                    self.fail("bad-path-" + ("raised:" + exc_sig(out) if st == "exc" else "hang"), {"path": p, "observed": repr(out)[:200]})
+                    return n
+                if "was not found" not in out:
+                    self.fail("bad-path-accepted", {"path": p, "observed": out[:200]})
+                    return n
     return n
 
 
@@ -336,7 +355,8 @@ class Check(CheckBase):
             "item or be rejected; other paths: all token sequences of length 1 (quick) / <=2 (thorough) over {real names, names "
             "with one character changed/added/removed, '', ' ', '..', ':', non-ASCII, '.', 'A:', 'a'} with each separator must "
             "print 'was not found' and raise nothing; every good path (any depth, also items that are not directories) continued by "
-            "one more token that names nothing there likewise. non-trivial = trees with nodes at depth >= 2")
+            "one more token that names nothing there likewise, and every good path with one separator doubled ('//', '/\\', '\\/': an "
+            "empty component). non-trivial = trees with nodes at depth >= 2")
     assumptions = ["items with a blank printed name are not required to be addressable",
                    "paths that only differ from a good path by AKAI case / partition colon may resolve or be rejected"]
 
